@@ -13,7 +13,7 @@ rsync -a --exclude .git "$REPO"/ "$S/repo/" || fail "copy failed"
 cp -r "$V/sim/zzsim" "$S/zzsim" && cp -r "$V/sim/harness" "$S/harness" || fail "copy failed"
 mkdir -p "$S/repo/zzprobe" && cp "$V/sim/probe/probe.qi.idl" "$S/repo/zzprobe/" || fail "copy failed"
 cd "$S/repo" || fail "cd"
-go run ./meta/cmd/stub --idl zzprobe/probe.qi.idl --output zzprobe/probe_stub_gen.go --path github.com/lugu/qiloop/zzprobe >"$S/gen.log" 2>&1 || { cat "$S/gen.log" >&2; fail "probe generation failed"; }
+go run ./meta/cmd/stub --idl zzprobe/probe.qi.idl --output zzprobe/probe_stub_gen.go >"$S/gen.log" 2>&1 || { cat "$S/gen.log" >&2; fail "probe generation failed"; }
 [ -s zzprobe/probe_stub_gen.go ] || { cat "$S/gen.log" >&2; fail "probe generation produced nothing"; }
 "$V/bin/simrewrite" -root . -pkgs bus,bus/net,bus/directory,bus/session,bus/services,bus/util,zzprobe,examples/space >"$S/rewrite.log" 2>&1 || { cat "$S/rewrite.log" >&2; fail "instrumentation failed"; }
 printf '\nrequire zzsim v0.0.0\n\nreplace zzsim => ../zzsim\n' >> go.mod
